@@ -745,4 +745,25 @@ theorem C14_top_most_specific (tbl : Table) (typ : String) (n : Name) (p : Patte
 
 example : lookup [⟨.top, "", ⟨"urn:a", ""⟩⟩, ⟨.top, "", ⟨"", "x"⟩⟩] .top "" ⟨"urn:a", "x"⟩ = some ⟨.top, "", ⟨"", "x"⟩⟩ := by decide
 
+/-! ### a reader that fails in the middle of a stanza -/
+
+/-- **failing reader**: when the reader underneath fails (not `io.EOF`) after `cut` tokens of the
+stanza, the handlers invoked are those of the children whose start tag arrived — the same
+patterns, in the same order, as the first handlers of the complete dispatch — and each reads
+the first `c` tokens of what arrived, from the stanza's start element; nothing beyond the
+failure point is invented -/
+theorem C14_failing_reader (tbl : Table) (k : Kind) (typ : String) (stanza : List Tok)
+    (cons : List Nat) (cut : Nat) :
+    forChildrenCut tbl k typ stanza cons cut
+      = specCalls tbl k typ (stanza.take cut) (children (stanza.take cut)) cons ∧
+    (forChildrenCut tbl k typ stanza cons cut).map (·.pat)
+      <+: (specCalls tbl k typ stanza (children stanza) cons).map (·.pat) := by
+  refine ⟨forChildrenCut_spec tbl k typ stanza cons cut, ?_⟩
+  rw [forChildrenCut_spec, specCalls_pats, specCalls_pats]
+  exact (children_take_prefix stanza cut).map _
+
+example : (forChildrenCut [⟨.msg, "chat", ⟨"", ""⟩⟩] .msg "chat"
+    [.start ⟨"jabber:client", "message"⟩ [], .start ⟨"urn:a", "x"⟩ [], .stop ⟨"urn:a", "x"⟩,
+     .start ⟨"urn:a", "y"⟩ [], .stop ⟨"urn:a", "y"⟩, .stop ⟨"jabber:client", "message"⟩] [9, 9] 3).length = 1 := by decide
+
 end XmppModel.Props.C14
